@@ -165,13 +165,16 @@ V('A1__copy_shares', ['C04', 'C16'], 'bits.py', "        s_copy = self.__class__
   "        s_copy = self.__class__()\n        s_copy._bitstore = self._bitstore.copy()\n        return s_copy", ['A1', 'A10'])
 V('A1_slice_shares_when_whole', ['C04'], 'bits.py', "        bs = self.__class__()\n        bs._bitstore = self._bitstore.getslice(start, end)\n        return bs",
   "        bs = self.__class__()\n        bs._bitstore = self._bitstore if (start, end) == (0, len(self)) else self._bitstore.getslice(start, end)\n        return bs", ['A1'])
-V('A1_and_same_object_shares', ['C04', 'C16'], 'bits.py', "        if bs is self:\n            return self.copy()\n        bs = Bits._create_from_bitstype(bs)\n        s = object.__new__(self.__class__)\n        s._bitstore = self._bitstore & bs._bitstore",
+V('A1_and_same_object_shares', ['C04', 'C16'], 'bits.py', "        if bs is self:\n            return self.__copy__()\n        bs = Bits._create_from_bitstype(bs)\n        s = object.__new__(self.__class__)\n        s._bitstore = self._bitstore & bs._bitstore",
   "        if bs is self:\n            s = object.__new__(self.__class__)\n            s._bitstore = self._bitstore\n            return s\n        bs = Bits._create_from_bitstype(bs)\n        s = object.__new__(self.__class__)\n        s._bitstore = self._bitstore & bs._bitstore", ['A1'])
+V('POSW_and_self_resets_pos', ['C06', 'C16'], 'bits.py', "        if bs is self:\n            return self.__copy__()\n        bs = Bits._create_from_bitstype(bs)\n        s = object.__new__(self.__class__)\n        s._bitstore = self._bitstore & bs._bitstore",
+  "        if bs is self:\n            return self.copy()\n        bs = Bits._create_from_bitstype(bs)\n        s = object.__new__(self.__class__)\n        s._bitstore = self._bitstore & bs._bitstore", ['POSW'])
 V('A8_store_copy_returns_self', ['C04', 'C16'], 'bitstore.py', "        \"\"\"Always creates a copy, even if instance is immutable.\"\"\"\n        return BitStore(self._bitarray)",
   "        \"\"\"Always creates a copy, even if instance is immutable.\"\"\"\n        return self", ['A8'])
 V('A8_copy_ignores_flag', ['C04'], 'bitstore.py', "        return self if self.immutable else self._copy()", "        return self", ['A8'])
-V('A8_init_aliases_bitarray', ['C04'], 'bitstore.py', "        self._bitarray = bitarray.bitarray(initializer)\n        self.immutable = immutable",
-  "        self._bitarray = initializer if isinstance(initializer, bitarray.bitarray) else bitarray.bitarray(initializer)\n        self.immutable = immutable", ['A8'])
+V('A8_init_aliases_bitarray', ['C04'], 'bitstore.py', "        self._bitarray = bitarray.bitarray(initializer, endian='big')\n        self.immutable = immutable",
+  "        self._bitarray = initializer if isinstance(initializer, bitarray.bitarray) else bitarray.bitarray(initializer, endian='big')\n        self.immutable = immutable", ['A8'])
+V('A7_store_keeps_endianness', ['C08', 'C13', 'C04'], 'bitstore.py', "        self._bitarray = bitarray.bitarray(initializer, endian='big')", "        self._bitarray = bitarray.bitarray(initializer)", ['A7'])
 V('A8_and_returns_operand', ['C04', 'C16'], 'bitstore.py', "        return BitStore(self._bitarray & other._bitarray)", "        self._bitarray &= other._bitarray\n        return self", ['A8'])
 V('A7_bytearray_via_frombuffer', ['C04'], 'bits.py', "            self._bitstore = BitStore.frombytes(bytearray(s))", "            self._bitstore = BitStore.frombuffer(s)", ['A7'])
 V('A7_mmap_writable', ['C04'], 'bits.py', "m = mmap.mmap(source.fileno(), 0, access=mmap.ACCESS_READ)", "m = mmap.mmap(source.fileno(), 0, access=mmap.ACCESS_COPY)", ['A7'])
@@ -367,3 +370,16 @@ S('PKG_S_rename_truncateleft', ALL, '*', pkg_fn=pkg_rename('_truncateleft', '_ch
 S('PKG_S_rename_repr_helper', ALL, '*', pkg_fn=pkg_rename('_repr', '_make_repr'))
 S('PKG_S_rename_setitem_helper', ALL, '*', pkg_fn=pkg_rename('_setitem_int', '_assign_bit'))
 S('PKG_S_rename_readue', ALL, '*', pkg_fn=pkg_rename('_readue', '_decode_ue'))
+V('OPT_fromfile_truthiness', ['C17'], 'array_.py', "        items_to_append = max_items if n is None else min(n, max_items)", "        items_to_append = min(n, max_items) if n else max_items", ['OPT'])
+V('OPT_find_bytealigned_or', ['C07'], 'bits.py', "        ba = bitstring.options.bytealigned if bytealigned is None else bytealigned\n        p = self._find(bs, start, end, ba)", "        ba = bytealigned or bitstring.options.bytealigned\n        p = self._find(bs, start, end, ba)", ['OPT', 'E3'])
+V('OPTDEP_getter_reads_bytealigned', ['C10', 'C02'], 'bits.py', "        if len(self) == 0:\n            raise bitstring.InterpretError(\"Cannot interpret a zero length bitstring as an integer.\")\n        return self._bitstore.slice_to_uint()", "        if len(self) == 0:\n            raise bitstring.InterpretError(\"Cannot interpret a zero length bitstring as an integer.\")\n        if bitstring.options.bytealigned and len(self) % 8:\n            raise bitstring.InterpretError(\"Not byte aligned.\")\n        return self._bitstore.slice_to_uint()", ['OPTDEP'])
+V('EQ1_eq_via_tobytes', ['C13'], 'bits.py', "            return self._bitstore == Bits._create_from_bitstype(bs)._bitstore", "            return self.tobytes() == Bits._create_from_bitstype(bs).tobytes()", ['EQ1'])
+V('J1_hash_raw_buffer', ['C13', 'C08'], 'bits.py', "            return hash((self.tobytes(), len(self)))", "            return hash((self._bitstore._bitarray.tobytes(), len(self)))", ['J1'])
+V('B1_clear_in_place', ['C06', 'C20'], 'bitarray_.py', "        \"\"\"Remove all bits, reset to zero length.\"\"\"\n        self._clear()", "        \"\"\"Remove all bits, reset to zero length.\"\"\"\n        self._bitstore.clear()", ['B1'])
+V('I_repr_token_in_bits', ['C14', 'C19'], 'array_.py', "        return f\"Array('{self._dtype}', {list_str}{final_str})\"", "        return f\"Array('{self._dtype.name}{self.itemsize}', {list_str}{final_str})\"", ['I'])
+V('H5c_overflow_table_unused', ['C11'], 'bitstore_helpers.py', "    if bitstring.options.mxfp_overflow == 'saturate':\n        u = e4m3mxfp_saturate_fmt.float_to_int(f)\n    else:\n        u = e4m3mxfp_overflow_fmt.float_to_int(f)", "    u = e4m3mxfp_saturate_fmt.float_to_int(f)\n    if bitstring.options.mxfp_overflow != 'saturate' and abs(f) > 448.0:\n        u = e4m3mxfp_overflow_fmt.pos_clamp_value", ['H5c'])
+V('A5_xor_self_shortcut', ['C16', 'C04'], 'bits.py', "        bs = Bits._create_from_bitstype(bs)\n        s = object.__new__(self.__class__)\n        s._bitstore = self._bitstore ^ bs._bitstore", "        if bs is self:\n            s = self.copy()\n            s._bitstore.setall(0)\n            return s\n        bs = Bits._create_from_bitstype(bs)\n        s = object.__new__(self.__class__)\n        s._bitstore = self._bitstore ^ bs._bitstore", ['A5'])
+V('E10_extend_ignores_byte_order', ['C18'], 'array_.py', "            if self._dtype.name != other_dtype.name or self._dtype.bitlength != other_dtype.bitlength:", "            if self._dtype.return_type != other_dtype.return_type or self._dtype.is_signed != other_dtype.is_signed or self._dtype.bitlength != other_dtype.bitlength:", ['E10'])
+V('F2_alias_of_cached_list', ['C09', 'C02', 'C15'], 'methods.py', "            _, tkns = tokenparser(f_item, tuple(sorted(kwargs.keys())))\n            tokens.extend(tkns)", "            _, tkns = tokenparser(f_item, tuple(sorted(kwargs.keys())))\n            if tokens:\n                tokens.extend(tkns)\n            else:\n                tokens = tkns", ['F2'])
+V('A6_tobitarray_readonly_alias', ['C04', 'C08'], 'bits.py', "            return self._bitstore._bitarray.copy()", "            ba = self._bitstore._bitarray\n            return ba if ba.readonly else ba.copy()", ['A6'])
+V('A7_bytesio_read', ['C08', 'C13'], 'bits.py', "            self._bitstore = BitStore.frombytes(s.getvalue())\n        elif isinstance(s, io.BufferedReader):", "            self._bitstore = BitStore.frombytes(s.read())\n        elif isinstance(s, io.BufferedReader):", ['A7'])
